@@ -6,7 +6,7 @@ def spec(tier):
     obs = []
     K = 14 if th else 12
     # priority scheduler: 3 pipelines, a late QUERY arrival forces preemption of multi-operator containers
-    mixes = [(3, 1, 2), (3, 3, 1), (2, 1, 1)] + ([(1, 2, 3), (3, 2, 2)] if th else [])
+    mixes = [(3, 1, 2), (3, 3, 1), (2, 1, 1), (2, 1, 3)] + ([(1, 2, 3), (3, 2, 2), (2, 3, 1)] if th else [])
     for pools in ((1, 2) if th else (1,)):
         for multi in (True, False):
             for (p1, p2, p3) in mixes:
@@ -36,6 +36,12 @@ def spec(tier):
         cfg2 = dict(cfg, pools=2)
         obs.append(CH(name="prio_two_queries_two_victims_P2", harness="sched.priority", sym=dict(cpus=I(1, 4), ta=I(1, 2), tb=I(1, 2), da=I(1, 2)),
                       fixed=dict(cfg=cfg2, ram=20, ma=1), timeout=2400))
+    # an INTERACTIVE multi-operator container preempted for a query while BATCH pipelines queue up behind it
+    cfg = dict(algo="priority", pools=1, multi=True, K=K,
+               pipes=[pipe("chain3", prio=2, at=0, durs=[1, "da", 1]), pipe("single", prio=1, at="ta", durs=[2]), pipe("single", prio=3, at="tb", durs=[2]),
+                      pipe("single", prio=3, at="tb", durs=[3])])
+    obs.append(CH(name="prio_interactive_preempted", harness="sched.priority", sym=dict(cpus=I(1, 4), ta=I(1, 3), tb=I(1, 5), da=I(1, 2)),
+                  fixed=dict(cfg=cfg, ram=20, ma=1), timeout=1500))
     # the shared pool of priority-pool
     for (p1, p2, p3) in ((2, 1, 2), (1, 2, 1)):
         cfg = dict(algo="priority-pool", pools=2, multi=True, K=K,
